@@ -184,6 +184,40 @@ theorem transform_idempotent_partial (v v' : Json) (text : List Char) (h : RT.nu
     (hn : v.normalize = some v') (hj : v.jcs = some text) : Parse.parse text = some v' := by
   rw [canonical_text_reads_back_partial v text h hj, hn]
 
+/-- **normalisation is idempotent** (same restriction): the normal form is its own normal form -/
+theorem normalize_idempotent_partial (v v' : Json) (h : RT.numFree v = true) (hn : v.normalize = some v') :
+    v'.normalize = some v' := RT.normalize_fixed v v' h hn
+
+/-- **canonical text is a fixed point of the transformer**: `Transform(Transform(x)) = Transform(x)`
+    for every number-free object or array -/
+theorem transform_fixed_point_partial (v : Json) (text : List Char) (h : RT.numFree v = true)
+    (ht : transformValue v = some text) : transform text = some text := by
+  unfold transformValue at ht
+  split at ht
+  · rename_i hc
+    unfold transform
+    cases hn : v.normalize with
+    | none => simp [Json.jcs, hn] at ht
+    | some v' =>
+      rw [canonical_text_reads_back_partial v text h ht, hn]
+      have hfix := RT.normalize_fixed v v' h hn
+      have hc' : v'.isContainer = true := by
+        cases v with
+        | arr xs => simp only [Json.normalize, Option.map_eq_some_iff] at hn; obtain ⟨_, _, rfl⟩ := hn; rfl
+        | obj kvs =>
+          simp only [Json.normalize] at hn
+          cases hm : Json.normalizeMembers kvs with
+          | none => simp [hm] at hn
+          | some kvs' =>
+            simp only [hm] at hn
+            split at hn
+            · cases hn; rfl
+            · cases hn
+        | _ => simp [Json.isContainer] at hc
+      simp only [Option.bind_some, transformValue, hc', if_true, Json.jcs, hfix, Option.map_some]
+      simpa [Json.jcs, hn] using ht
+  · cases ht
+
 /-- the hypothesis is met by ordinary values (escapes and nesting included) -/
 example : RT.numFree (.obj [("b", .arr [.str "x\n\u0001\"", .null]), ("a", .bool true)]) = true := by decide
 
